@@ -237,14 +237,35 @@ def check(ctx, run):
                     continue
                 hk = None
                 others = []
+                # the header kinds this path is taken for: every test of the masked header narrows the set (a path whose tests contradict
+                # each other is not a path of the program)
+                poss = {'S', 'A', 'O', 'otherwise'}
+                masked = lambda t_: t_[0] == 'bin' and t_[1] == 'BitAnd' and any(x[0] == 'const' and x[1] == 0xE0000000 for x in (t_[2], t_[3]))
+                tested = False
                 for c in p.conds:
                     t = c[0]
-                    if t[0] == 'bin' and t[1] == 'BitAnd' and any(x[0] == 'const' and x[1] == 0xE0000000 for x in (t[2], t[3])):
-                        hk = heads.get(c[2], 'other') if c[1] == 'eq' else 'otherwise'
+                    if masked(t):
+                        tested = True
+                        if c[1] == 'eq':
+                            poss &= {heads.get(c[2], 'otherwise')}
+                        elif c[1] == 'ne' and isinstance(c[2], tuple):
+                            poss -= {heads[v_] for v_ in c[2] if v_ in heads}
+                    elif t[0] == 'bin' and t[1] in ('Eq', 'Ne') and isinstance(c[2], bool) and (masked(t[2]) or masked(t[3])):
+                        kv = const_of(t[3]) if masked(t[2]) else const_of(t[2])
+                        if kv is not None:
+                            tested = True
+                            if (t[1] == 'Eq') == c[2]:
+                                poss &= {heads.get(kv, 'otherwise')}
+                            elif kv in heads:
+                                poss -= {heads[kv]}
                     elif t[0] == 'discr' or is_call(t, 'Try::branch') or 'ovf' in show(t):
                         continue
                     else:
                         others.append(c)
+                if not poss:
+                    continue
+                if tested:
+                    hk = sorted(poss)
                 if agg_variant(r) and r[1][2] == 'Ok':
                     v = deref_all(r[2][0])
                     res = v[1][2] if agg_variant(v) else 'value'
@@ -259,7 +280,8 @@ def check(ctx, run):
                     continue
                 if s0 != 0:
                     continue
-                table.setdefault(hk, set()).add(res)
+                for hk_ in (hk or [None]):
+                    table.setdefault(hk_, set()).add(res)
                 if others and res in ('None',):
                     extra.append((res, [show(c[0])[:50] for c in others]))
         loc = f'{b.file}:{b.line}'
